@@ -148,6 +148,8 @@ def make_xvg(h, total, nleg, nrows, rot, times="distinct"):
         tm = f"{rI * 0.5:.6f}"
         if times == "rerun":          # gmx rerun of single frames: every line reports t = 0
             tm = "0.000000"
+        elif times == "negative":     # equilibration part of a run: the time axis starts below zero
+            tm = f"{(rI - 2) * 0.5:.6f}"
         elif times == "restart" and rI >= 1:   # a continued run repeats the restart frame's time stamp
             tm = f"{(rI - 1) * 0.5:.6f}"
         rows.append([tm] + vals)
@@ -266,7 +268,7 @@ def run(ctx):
                     for nrows in (1, 2, 7):
                         xcs.append({"h": h, "total": total, "nleg": nleg, "nrows": nrows, "rot": (h + nleg + nrows) % len(LEGENDS),
                                     "tmp": tmp})
-        for times in ("rerun", "restart"):       # repeated time stamps: rows must still be one per data line
+        for times in ("rerun", "restart", "negative"):       # repeated time stamps: rows must still be one per data line
             for h in (0, 5, 13):
                 for nleg in (1, 4, 10):
                     for nrows in (2, 7):
